@@ -194,6 +194,34 @@ def trailingBs : Nat → Char → List Char → Option (List Char)
     | some (b :: r) =>
       if b == ' ' || b == '\t' || b == '\n' || b == '\r' then trailingBs f b r else some (b :: r)
 
+/-- one escape sequence, the text after the backslash (lexer validation fused with syn's
+    decoding): `some (some ch, rest)` = the character `ch`; `some (none, rest)` = a line
+    continuation (backslash, newline and the following white space are dropped);
+    `none` = reject -/
+def escape (m : StrMode) (f : Nat) : List Char → Option (Option Char × List Char)
+  | 'x' :: a :: b :: r' =>
+    match hexVal a, hexVal b with
+    | some x, some y =>
+      let v := x * 16 + y
+      if (m == .str && 8 ≤ x) || (m == .cstr && v == 0) then none
+      else some (some (Char.ofNat v), r')
+    | _, _ => none
+  | 'n' :: r' => some (some '\n', r')
+  | 'r' :: r' => some (some '\r', r')
+  | 't' :: r' => some (some '\t', r')
+  | '\\' :: r' => some (some '\\', r')
+  | '\'' :: r' => some (some '\'', r')
+  | '"' :: r' => some (some '"', r')
+  | '0' :: r' => if m == .cstr then none else some (some '\x00', r')
+  | 'u' :: r' =>
+    if m == .bytes then none else
+    match uEsc r' with
+    | some (ch, r'') => if m == .cstr && ch == '\x00' then none else some (some ch, r'')
+    | none => none
+  | '\n' :: r' => (trailingBs f '\n' r').map fun r'' => (none, r'')
+  | '\r' :: r' => (trailingBs f '\r' r').map fun r'' => (none, r'')
+  | _ => none
+
 /-- `cooked_string` / `cooked_byte_string` / `cooked_c_string` (validation, lexer) fused with
     `parse_lit_str_cooked` (decoding, syn).  Input: the text after the opening quote; `acc` =
     the decoded characters so far, reversed.  Output: decoded value and the text after the
@@ -208,35 +236,10 @@ def cooked (m : StrMode) : Nat → List Char → List Char → Option (List Char
       | '\n' :: r' => cooked m f r' ('\n' :: acc)
       | _ => none
     else if c == '\\' then
-      match r with
-      | 'x' :: a :: b :: r' =>
-        match hexVal a, hexVal b with
-        | some x, some y =>
-          let v := x * 16 + y
-          if (m == .str && 8 ≤ x) || (m == .cstr && v == 0) then none
-          else cooked m f r' (Char.ofNat v :: acc)
-        | _, _ => none
-      | 'n' :: r' => cooked m f r' ('\n' :: acc)
-      | 'r' :: r' => cooked m f r' ('\r' :: acc)
-      | 't' :: r' => cooked m f r' ('\t' :: acc)
-      | '\\' :: r' => cooked m f r' ('\\' :: acc)
-      | '\'' :: r' => cooked m f r' ('\'' :: acc)
-      | '"' :: r' => cooked m f r' ('"' :: acc)
-      | '0' :: r' => if m == .cstr then none else cooked m f r' ('\x00' :: acc)
-      | 'u' :: r' =>
-        if m == .bytes then none else
-        match uEsc r' with
-        | some (ch, r'') => if m == .cstr && ch == '\x00' then none else cooked m f r'' (ch :: acc)
-        | none => none
-      | '\n' :: r' =>
-        match trailingBs f '\n' r' with
-        | some r'' => cooked m f r'' acc
-        | none => none
-      | '\r' :: r' =>
-        match trailingBs f '\r' r' with
-        | some r'' => cooked m f r'' acc
-        | none => none
-      | _ => none
+      match escape m f r with
+      | some (some ch, r') => cooked m f r' (ch :: acc)
+      | some (none, r') => cooked m f r' acc
+      | none => none
     else if (m == .bytes && 128 ≤ c.toNat) || (m == .cstr && c == '\x00') then none
     else cooked m f r (c :: acc)
 
@@ -356,7 +359,9 @@ def lexNumber (cs : List Char) : Option (K × List Char) :=
 
 /-! ### identifiers -/
 
-def isERROR (cs : List Char) : Bool := "(/*ERROR*/)".toList.isPrefixOf cs
+/-- the text starts with `(/*ERROR*/)`, which the fallback lexer reads as one literal -/
+def isERROR (cs : List Char) : Bool :=
+  ['(', '/', '*', 'E', 'R', 'R', 'O', 'R', '*', '/', ')'].isPrefixOf cs
 
 /-- `ident_any` on a text whose first character is an identifier start -/
 def lexIdent (cs : List Char) : Option (K × List Char) :=
